@@ -173,9 +173,11 @@ def run_unit(u, scratch, pid):
                 if res.cls["verdict"] != "violated":
                     res.cls["verdict"] = "inconclusive"
                 res.cls["reasons"].append("obligation %s: %s" % (ob.name, {k: v[0] for k, v in ob.results.items()}))
-    except (mir.MirError, RuntimeError, KeyError) as e:
+    except Exception as e:   # anything unexpected while translating or analysing: never a verdict
+        import traceback
         res.cls["verdict"] = "inconclusive"
-        res.cls["reasons"].append("MIR translation failed (the function's shape changed?): %r" % (e,))
+        res.cls["candidates"] = []
+        res.cls["reasons"].append("MIR translation failed (the function's shape changed?): %r at %s" % (e, traceback.format_exc().strip().splitlines()[-2].strip()[:120]))
     res.wall_s = time.time() - t0
     res.blocks = mir.COUNTERS["blocks"] - b0
     res.edges = mir.COUNTERS["edges"] - e0
